@@ -310,6 +310,7 @@ func c12ParsePlan(in []string) *c12Plan {
 
 var (
 	errC12Src    = errors.New("c12-source-error")
+	errC12Close  = errors.New("c12-close-error")
 	errC12Writer = errors.New("c12-writer-error")
 	errC12Auth   = errors.New("c12-auth-error")
 	errC12Tr     = errors.New("c12-transport-error")
@@ -323,9 +324,10 @@ const c12Watchdog = 3 * time.Second
 
 // c12Src is an upload source: `reads` chunks, then EOF or an error; counts its Close calls.
 type c12Src struct {
-	spec   c12SrcSpec
-	pos    int
-	closes int32
+	spec     c12SrcSpec
+	closeErr bool // an upload file (not the stream payload, whose Close failure GetBody reports)
+	pos      int
+	closes   int32
 }
 
 func (s *c12Src) Read(p []byte) (int, error) {
@@ -339,7 +341,15 @@ func (s *c12Src) Read(p []byte) (int, error) {
 	return 0, io.EOF
 }
 
-func (s *c12Src) Close() error { atomic.AddInt32(&s.closes, 1); return nil }
+// Close counts; every other source reports a failure of its Close (a stale handle, a file closed twice):
+// releasing the remaining files must not depend on it.
+func (s *c12Src) Close() error {
+	atomic.AddInt32(&s.closes, 1)
+	if s.closeErr && s.spec.reads%2 == 1 {
+		return errC12Close
+	}
+	return nil
+}
 
 // c12Body is the scripted response body of the in-process wire.
 type c12Body struct {
@@ -604,7 +614,7 @@ func c12ExecF(in []string) []string {
 
 	var files []*c12Src
 	for _, f := range p.files {
-		files = append(files, &c12Src{spec: f})
+		files = append(files, &c12Src{spec: f, closeErr: true})
 	}
 	var stream *c12Src
 	if p.payload == 's' {
